@@ -24,6 +24,14 @@ type Base struct {
 	Name string
 }
 
+type TZInner struct{ X int }
+type TZMid struct{ TZInner }
+type TZOther struct{ X int }
+type TZTop struct {
+	TZMid
+	TZOther
+}
+
 type Base2 struct {
 	Name string
 	ID   int
@@ -119,6 +127,7 @@ func typesetCatalog() []tsVal {
 				Base2
 			}{"u", Base2{Name: "emb2", ID: 6}}
 		}},
+		{"depth rule", func() interface{} { return &TZTop{TZMid{TZInner{1}}, TZOther{2}} }},
 		{"tags crossed", func() interface{} {
 			return &struct {
 				X    int    `json:"name"`
@@ -148,36 +157,33 @@ func typesetCatalog() []tsVal {
 // lookupField is the documented member lookup of a bridged struct: fields in
 // order; an embedded struct is searched first; then the json tag, then the Go name.
 func lookupField(v reflect.Value, name string) (reflect.Value, bool) {
-	t := v.Type()
-	// Go's selector rule: the struct's own fields shadow promoted ones
-	for i := 0; i < t.NumField(); i++ {
-		f := t.Field(i)
+	declares := func(f reflect.StructField) bool {
 		if !bridge.ExportedName(f.Name) {
-			continue
+			return false
 		}
 		if tag := strings.Split(f.Tag.Get("json"), ",")[0]; tag != "" && tag != "-" && tag == name {
-			return v.Field(i), true
+			return true
 		}
-		if f.Name == name {
-			return v.Field(i), true
-		}
+		return f.Name == name
 	}
-	for i := 0; i < t.NumField(); i++ {
-		f := t.Field(i)
-		if !bridge.ExportedName(f.Name) {
-			continue
-		}
-		if f.Anonymous && f.Type.Kind() == reflect.Struct {
-			if fv, ok := lookupField(v.Field(i), name); ok {
-				return fv, true
+	// Go's selector rule: breadth first - the shallowest struct that declares the name wins
+	level := []reflect.Value{v}
+	for len(level) > 0 {
+		var next []reflect.Value
+		for _, sv := range level {
+			t := sv.Type()
+			for i := 0; i < t.NumField(); i++ {
+				if declares(t.Field(i)) {
+					return sv.Field(i), true
+				}
+			}
+			for i := 0; i < t.NumField(); i++ {
+				if f := t.Field(i); bridge.ExportedName(f.Name) && f.Anonymous && f.Type.Kind() == reflect.Struct {
+					next = append(next, sv.Field(i))
+				}
 			}
 		}
-		if tag := strings.Split(f.Tag.Get("json"), ",")[0]; tag != "" && tag != "-" && tag == name {
-			return v.Field(i), true
-		}
-		if f.Name == name {
-			return v.Field(i), true
-		}
+		level = next
 	}
 	return reflect.Value{}, false
 }
@@ -318,9 +324,9 @@ func runTypeset(r *engine.Run) {
 		}
 	}
 	if r.Thorough() {
-		for i := 0; i < 14; i++ {
-			for j := 0; j < 14; j++ {
-				for k := 0; k < 14; k++ {
+		for i := 0; i < 15; i++ {
+			for j := 0; j < 15; j++ {
+				for k := 0; k < 15; k++ {
 					if i != j && j != k && i != k {
 						seqs = append(seqs, seq{[]int{i, j, k}, false})
 					}
